@@ -193,6 +193,8 @@ def main(argv=None):
     if not jobs:
         print('no contracts registered for %s' % prop)
         return 3
+    if a.tier == 'thorough' and 'PYVC_CROSS' not in os.environ:
+        os.environ['PYVC_CROSS'] = '60'      # per contract: the first 60 discharged queries are re-checked by cvc5 (inherited by the workers)
     reports = run_jobs(jobs, min(a.jobs, len(jobs)), JOB_TIMEOUT_S[a.tier if a.tier in JOB_TIMEOUT_S else 'quick'])
     if a.tier == 'thorough':
         from pyvc import thorough
